@@ -40,6 +40,10 @@ def bootstrap() -> str:
     if not any(isinstance(h, logging.NullHandler) for h in root.handlers):
         root.addHandler(logging.NullHandler())
     logging.lastResort = None  # type: ignore[assignment]
+    import warnings
+
+    # "coroutine ... was never awaited": spawning into an already finished task group raises and drops the coroutine
+    warnings.filterwarnings("ignore", category=RuntimeWarning)
     # haiway's ScopeMetrics.__del__ asserts; collect instead of printing
     sys.unraisablehook = lambda info: _unraisable.append(info)  # type: ignore[assignment]
     return src
